@@ -46,8 +46,12 @@ def suite(wt):
 
 
 def main():
-    src, prop, name = sys.argv[1:4]
+    args = [a for a in sys.argv[1:] if not a.startswith('--')]
+    checks_only = '--checks-only' in sys.argv
+    src, prop, name = args[:3]
     seed = os.path.join(src, 'SEED')
+    if not os.path.isdir(seed):
+        seed = src              # re-check of a stored seed
     patch = os.path.join(seed, 'patch.diff')
     demo = os.path.join(seed, 'demo.py')
     for f in (patch, demo):
@@ -67,7 +71,13 @@ def main():
                     os.path.join(seed, extra)):
                 shutil.copy(os.path.join(seed, extra),
                             os.path.join(wt, 'SEED', extra))
-        rc0, out0 = sh([PY, 'SEED/demo.py'], cwd=wt, timeout=180)
+        old_meta = {}
+        if checks_only and os.path.exists(os.path.join(seed, 'meta.json')):
+            old_meta = json.load(open(os.path.join(seed, 'meta.json')))
+        if checks_only:
+            rc0, out0 = old_meta.get('demo_without'), ''
+        else:
+            rc0, out0 = sh([PY, 'SEED/demo.py'], cwd=wt, timeout=180)
         meta['demo_without'] = rc0
         rc, out = sh(['git', 'apply', '--whitespace=nowarn', patch], cwd=wt)
         if rc:
@@ -79,13 +89,20 @@ def main():
             rc, out = sh([PY, '-m', 'py_compile', f], cwd=wt)
             if rc:
                 sys.exit('does not compile: ' + out)
-        rc1, out1 = sh([PY, 'SEED/demo.py'], cwd=wt, timeout=180)
+        if checks_only:
+            rc1 = old_meta.get('demo_with')
+            meta['demo_output_with'] = old_meta.get('demo_output_with')
+            meta['suite'] = old_meta.get('suite')
+            missing = (meta['suite'] or {}).get('baseline_missing', [])
+            passed = range((meta['suite'] or {}).get('passed', 0))
+        else:
+            rc1, out1 = sh([PY, 'SEED/demo.py'], cwd=wt, timeout=180)
+            meta['demo_output_with'] = out1[-1500:]
+            passed, failed = suite(wt)
+            missing = sorted(set(BASE) - passed)
+            meta['suite'] = dict(passed=len(passed), failed=len(failed),
+                                 baseline_missing=missing)
         meta['demo_with'] = rc1
-        meta['demo_output_with'] = out1[-1500:]
-        passed, failed = suite(wt)
-        missing = sorted(set(BASE) - passed)
-        meta['suite'] = dict(passed=len(passed), failed=len(failed),
-                             baseline_missing=missing)
         # run every check against the patched copy
         fired = {}
         outdir = tempfile.mkdtemp(prefix='intake-out-')
@@ -117,12 +134,17 @@ def main():
         if ok:
             dst = os.path.join(VERIF, 'seeded', name)
             os.makedirs(dst, exist_ok=True)
-            shutil.copy(patch, os.path.join(dst, 'patch.diff'))
-            shutil.copy(demo, os.path.join(dst, 'demo.py'))
+            if os.path.abspath(dst) != os.path.abspath(seed):
+                shutil.copy(patch, os.path.join(dst, 'patch.diff'))
+                shutil.copy(demo, os.path.join(dst, 'demo.py'))
             notes = os.path.join(seed, 'notes.md')
             if os.path.exists(notes):
-                shutil.copy(notes, os.path.join(dst, 'notes.md'))
+                if os.path.abspath(dst) != os.path.abspath(seed):
+                    shutil.copy(notes, os.path.join(dst, 'notes.md'))
                 meta['needs_to_manifest'] = open(notes).read()[:1500]
+            if checks_only and old_meta.get('what_ran'):
+                meta['what_ran'] = old_meta['what_ran'] + \
+                    ' [checks re-run later against the same patch]'
             meta['expect'] = 'violation' if meta['detected_by_checks_of'] \
                 else 'missed'
             json.dump(meta, open(os.path.join(dst, 'meta.json'), 'w'),
